@@ -155,7 +155,7 @@ def parse_shape(program, var_digraphs=False):
             return "NUM" if x.isnumeric() else ("STAR" if x == "*" else ("EMPTY" if x == "" else ("CTXNAME" if x[0] == "_" else "NAME")))
         return "V"
 
-    return sh(parse(tokenise(program, var_digraphs)))
+    return sh(sandbox.parse(sandbox.tokenise(program, var_digraphs)))
 
 
 def judge(part, program, benign_program, where, var_digraphs=False):
